@@ -33,3 +33,7 @@ TEXT = {
          "note": IPNOTE},
 }
 NA = {}
+
+TEXT["C06"] = {"ref": "DESIGN.md §7 C06", "technique": "Lean 4 model of Python's backtracking matcher run on CPython-parsed pattern trees (pinned) + correspondence + independent token-scanner oracle; frame theorem at T0",
+    "text": "Partial (tier T0). The two address patterns are translated through CPython's own parser into the Lean Re type and run by a Lean model of the backtracking matcher (ordered alternation, counted repeats, look-around, groups); parse/print of both families are modelled after ipaddress. Kernel-evaluated instances and the octet arithmetic are proved; the unbounded token-level reading ('every valid standalone token and nothing else is replaced') is NOT yet a theorem - it is validated exhaustively on all short strings over boundary alphabets and on structured tokens against an independent scanner. Known finding: IPv6 addresses with a dotted-quad tail.",
+    "note": "Trusted/validated rather than proved: that the Lean engine interprets the pinned trees as CPython's _sre does (validated on every exhaustive/seeded line of each run); ipaddress parsing/printing re-implemented in IpText.lean (validated likewise). The address map used by the text model is the pure Ffull/Gfull proved equal to the implementation's memo machine."}
